@@ -169,6 +169,36 @@ pub fn install_panic_hook() {
         } else {
             "<non-string panic>".to_string()
         };
+        // a panic raised inside the standard library (e.g. arithmetic overflow in `abs`) is
+        // attributed to the innermost frame that belongs to anthem or to the harness
+        let loc = if loc.starts_with("/repo/") || loc.starts_with("src/") || loc.starts_with("/verif/") {
+            loc
+        } else {
+            let bt = std::backtrace::Backtrace::force_capture().to_string();
+            let mut found = None;
+            let mut started = false;
+            for line in bt.lines() {
+                let line = line.trim();
+                if line.contains("core::panicking::") || line.contains("rust_begin_unwind") {
+                    started = true;
+                    continue;
+                }
+                if !started {
+                    continue;
+                }
+                if let Some(rest) = line.strip_prefix("at ") {
+                    if rest.starts_with("/repo/src/") {
+                        found = Some(rest.to_string());
+                        break;
+                    }
+                    if rest.starts_with("./src/") || rest.starts_with("/verif/") {
+                        found = Some(format!("harness:{rest}"));
+                        break;
+                    }
+                }
+            }
+            found.unwrap_or(loc)
+        };
         LAST_PANIC.with(|p| *p.borrow_mut() = Some((loc, msg)));
     }));
 }
@@ -342,7 +372,8 @@ impl<C: Check> Campaign<C> {
 }
 
 fn strip_line(loc: &str) -> String {
-    loc.rsplit_once(':').map(|x| x.0.to_string()).unwrap_or_else(|| loc.to_string())
+    // "/repo/src/x.rs:12:5" or "/repo/src/x.rs:12" -> "/repo/src/x.rs"
+    loc.split(':').next().unwrap_or(loc).to_string()
 }
 
 impl<C: Check> Part for Campaign<C> {
